@@ -228,6 +228,46 @@ pub fn gen_wrap_family(ch: &mut Chunker, r: &mut Rng, prop: &str, _thorough: boo
     };
     let ocfg = OptCfg { indents: true, custom_splitters: custom, algs, crlf: true };
     let n_texts = 450 * scale;
+    // (a) CRLF corner cases: every short text over {a, space, CR, LF} with the CRLF line ending (lone CR / LF are text)
+    for (i, text) in all_strings(&['a', ' ', '\r', '\n'], 4).iter().enumerate() {
+        for w in [1usize, 3, 10] {
+            if (i + w) % 2 == 0 {
+                let mut o = gen_opts(r, &ocfg, w);
+                o.crlf = true;
+                o.splitter = Splitter::Hyphen;
+                if i % 3 != 0 {
+                    o.ii.clear();
+                    o.si.clear();
+                }
+                if i % 4 == 0 {
+                    rec_fill(ch, text, &o, prop);
+                } else {
+                    rec_wrap(ch, text, &o, prop);
+                }
+            }
+        }
+    }
+    // (b) the zero-width sentinel scenario: a long first word, an initial indent that is wider in columns than the
+    //     subsequent indent but not longer in bytes (multi-byte / coloured subsequent indent), break_words on
+    let pairs: &[(&str, &str)] = &[("  ", "\u{e9}"), ("    ", "\u{1b}[1m>\u{1b}[0m "), ("\u{4f60}\u{597d}", "\u{e9}-\u{e9}"), ("* ", "\u{1b}[90m|\u{1b}[0m"), ("   ", "\u{bb} "),
+                                  ("> ", ""), ("", "> "), ("    ", "  ")];
+    for i in 0..60 * scale {
+        let (ii, si) = pairs[i % pairs.len()];
+        let n = r.range(5, 12);
+        let first: String = (0..n).map(|k| (b'a' + ((k * 5 + i) % 26) as u8) as char).collect();
+        let rest = gen_para(r, &TextCfg { max_words: 3, max_paras: 1, ansi: Ansi::None, unicode: true, ctrl: false, crlf: false });
+        let text = format!("{} {}", first, rest);
+        let iw = display_width_oracle(ii);
+        for w in [iw + 1, iw + 2, iw + n / 2, iw + n - 1, iw + n] {
+            let mut o = gen_opts(r, &ocfg, w);
+            o.ii = ii.to_string();
+            o.si = si.to_string();
+            o.bw = true;
+            o.crlf = false;
+            o.splitter = Splitter::Hyphen;
+            rec_wrap(ch, &text, &o, prop);
+        }
+    }
     for i in 0..n_texts {
         let crlf = i % 5 == 0;
         let tc = TextCfg { max_words: 6, max_paras: 4, ansi: if i % 3 == 0 { Ansi::None } else { ansi }, unicode: true, ctrl: ansi == Ansi::Any, crlf };
